@@ -72,6 +72,8 @@ def field_of(error):
 def unreal_signature(kind, arm, got_unreal, pre_unreal):
     """Stable, aggregating signature of an estimate mismatch."""
     g, p = dec(got_unreal), dec(pre_unreal)
+    if kind == "Persist":
+        return "Persist:estimate-changed"
     if kind in ("Mkt", "Mark"):
         return "Mkt:" + ("not-refreshed" if g is not None and p is not None and g == p else "wrong-value")
     grp = "Opened" if arm in ("Open", "Flip") else arm
@@ -93,7 +95,12 @@ def replay_results(ctx, binname, focus, scn_path, n_scn, mode, scale="none", lab
     args = ["replay", "--scenarios", scn_path, "--out", out, "--mode", mode, "--focus", focus, "--scale", scale]
     if instrument is not None:
         args += ["--instrument", instrument]
-    ctx.harness(binname, *args)
+    info = ctx.harness(binname, *args)
+    fl = ctx.cov.setdefault("instrument_flavours", {})
+    for k, v in (info.get("instrument_flavours") or {}).items():
+        fl[k] = fl.get(k, 0) + v
+    persists = (info.get("arms") or {}).get("Persist/", 0)
+    ctx.cov["store_restore_round_trips"] = ctx.cov.get("store_restore_round_trips", 0) + persists
     scns = None
     judged = unjudged = 0
     found = []      # (priority, sig, desc, replay): the clearest scenario of a signature is reported first
@@ -178,6 +185,10 @@ def anomaly(line):
 
 
 def arm_of(pre, line):
+    if line["a"] == "Persist":
+        return "restore"
+    if line["a"] == "Quiet":
+        return "NoPrice"
     if line["a"] != "Fill":
         return "Newer" if line.get("newer") else "Stale"
     if pre is None or pre["side"] == "none":
